@@ -694,6 +694,13 @@ class Engine(
             ):
                 lhs_payload = self.to_payload(lhs)
                 rhs_payload = self.to_payload(rhs)
+                if set(sqlalchemy.sql.util.find_tables(lhs_payload.from_clause, include_aliases=True)) & set(
+                    sqlalchemy.sql.util.find_tables(rhs_payload.from_clause, include_aliases=True)
+                ):
+                    # Both operands read the same table or subquery (e.g. a
+                    # self-join); "FROM t JOIN t" would be ambiguous, so give
+                    # the right-hand side its own alias by making it a subquery.
+                    rhs_payload = self.to_payload(Select.apply_skip(rhs))
                 assert common_columns is not None, "Guaranteed by Join.apply and PartialJoin.apply."
                 on_terms: list[sqlalchemy.sql.ColumnElement] = []
                 if common_columns:
